@@ -144,6 +144,9 @@ def deterministic(tape=None, extra=(), clock=None):
     """Deterministic recording ids, wall clock and global `random` for the duration of one run."""
     counter = UUIDCounter()
     clock = clock or VClock()
+    # process-global generator state must not leak from one run into the next
+    from . import values as _values
+    _values.FLAVOUR['objects'], _values.FLAVOUR['sharing'] = True, False
     pairs = [(m, 'uuid', counter) for m in UUID_MODULES] + clock_pairs(clock) + list(extra)
     pairs.append(('playback.tape_recorder', 'threading', ThreadingProxy()))
     state = random.getstate()
